@@ -143,6 +143,8 @@ var c20Types = []any{
 	new(rhp4.RPCSectorRootsRequest),              // tags
 	new(rhp4.RPCSectorRootsResponse),             // tags
 	new(rhp4.RPCSettingsResponse),                // tags
+	new(rhp4.RPCVerifySectorRequest),             // tags
+	new(rhp4.RPCVerifySectorResponse),            // tags
 	new(rhp4.RPCWriteSectorRequest),              // tags
 	new(rhp4.RPCWriteSectorResponse),             // tags
 	new(rhp4.Usage),                              // tags
